@@ -124,6 +124,8 @@ func scanLazyRed(c *core.Ctx) []ob {
 			final  bool
 		}
 		var guards []guard
+		resetCounters := map[types.Object]types.Object{} // counter of a count-and-reset guard -> its margin
+		var pendingFinal []guard
 		ast.Inspect(fd.Body, func(nd ast.Node) bool {
 			is, ok := nd.(*ast.IfStmt)
 			if !ok {
@@ -135,6 +137,32 @@ func scanLazyRed(c *core.Ctx) []ob {
 			}
 			mod, ok := unparen(be.X).(*ast.BinaryExpr)
 			if !ok || mod.Op != token.REM {
+				// the count-and-reset spelling: `cnt++; if cnt == M { reduce; cnt = 0 }` … `if cnt != 0 { reduce }`
+				co := identObj(info, be.X)
+				if co == nil {
+					return true
+				}
+				if mo := identObj(info, be.Y); mo != nil && be.Op == token.EQL {
+					if _, isMargin := margins[mo]; isMargin {
+						reset := false
+						ast.Inspect(is.Body, func(y ast.Node) bool {
+							if as, ok := y.(*ast.AssignStmt); ok && len(as.Lhs) == 1 && len(as.Rhs) == 1 && identObj(info, as.Lhs[0]) == co {
+								if tv, ok := info.Types[as.Rhs[0]]; ok && tv.Value != nil && tv.Value.ExactString() == "0" {
+									reset = true
+								}
+							}
+							return true
+						})
+						if reset {
+							guards = append(guards, guard{is: is, margin: mo, cnt: be.X, inLoop: true})
+							resetCounters[co] = mo
+						}
+					}
+					return true
+				}
+				if tv, ok := info.Types[be.Y]; ok && tv.Value != nil && tv.Value.ExactString() == "0" && be.Op == token.NEQ {
+					pendingFinal = append(pendingFinal, guard{is: is, cnt: be.X, final: true})
+				}
 				return true
 			}
 			mo := identObj(info, mod.Y)
@@ -150,6 +178,12 @@ func scanLazyRed(c *core.Ctx) []ob {
 			guards = append(guards, g)
 			return true
 		})
+		for _, g := range pendingFinal {
+			if mo, ok := resetCounters[identObj(info, g.cnt)]; ok {
+				g.margin = mo
+				guards = append(guards, g)
+			}
+		}
 		if len(guards) == 0 {
 			problems = append(problems, "lazy accumulation paced by an overflow margin, but no `cnt % margin` reduction guard found")
 		}
@@ -211,6 +245,9 @@ func scanLazyRed(c *core.Ctx) []ob {
 				return true
 			}
 			par := pm[ast.Node(inc)]
+			if is, ok := par.(*ast.IfStmt); ok && is.Init == ast.Stmt(inc) {
+				par = pm[ast.Node(is)] // `if cnt++; cnt == M`
+			}
 			blk, _ := par.(*ast.BlockStmt)
 			var loop ast.Node
 			if blk != nil {
